@@ -1,7 +1,7 @@
 CONSTANTS NSet = {1, 2, 3}
           BSet = {1, 2, 4}
           CacheSet = {TRUE, FALSE}
-          FailSet = {1, 2, 3, 4}
+          FailSet = {1, 2, 3, 4, 101, 102, 103}
           NIter = 2
           MaxSteps = 30
 VIEW View
